@@ -26,12 +26,15 @@ def main():
 
     width = os.environ.get("DOCTRANS_LINE_LENGTH")
     rng = random.Random(seed)
-    g = IRGen(rng, knobs(p_long_doc=0.35, p_long_summary=0.35, p_doc_states_default=0.4, p_hyphen_tokens=0.5))
+    g = IRGen(rng, knobs(p_long_doc=0.35, p_long_summary=0.35, p_doc_states_default=0.4, p_hyphen_tokens=0.5, p_multiline_doc=0.08))
     ga = IRGen(rng, knobs(p_long_doc=0.35, p_long_summary=0.35, argparse_domain=True, p_doc_states_default=0.4, p_hyphen_tokens=0.5))
+    # descriptions in which nothing needs wrapping at the usual widths (short prose, every parameter typed), a good part
+    # of them with prose that itself contains a line break
+    gc = IRGen(rng, knobs(p_untyped=0.0, p_long_doc=0.0, p_long_summary=0.0, p_boundary_doc=0.0, p_multiline_doc=0.4, p_doc_states_default=0.2))
     spaces = {k: [o for o in option_space(k) if o.get("word_wrap")] for k in ALL_KINDS}
     counts = {"cases": 0, "emit_ok": 0, "compared": 0, "max_line": 0, "lines_over_width": 0, "line_length_type": type(pu.line_length).__name__}
     for i in range(n):
-        ir, feat = g.ir()
+        ir, feat = g.ir() if i % 4 else gc.ir()
         ira, feata = ga.ir()
         for kind in ALL_KINDS:
             uir, ufeat = (ira, feata) if kind == "argparse" else (ir, feat)
@@ -45,7 +48,13 @@ def main():
             if kind in ("rest", "numpydoc", "google"):
                 base["style"] = kind
             base.update(case_flags(ufeat))
-            base["case_wrappable_entry"] = True  # relative to an arbitrary width every entry may wrap
+            # may any entry reach the width?  (head, indentation and the default sentence generously allowed for)
+            w_ = int(width) if width else 100
+            base["case_wrappable_entry"] = any(
+                max(len(l_) for l_ in (p_.get("doc") or "").split("\n")) + len(str(p_.get("default", ""))) + len(str(p_.get("typ") or "")) + 60 > w_
+                for p_ in list(uir["params"].values()) + list((uir.get("returns") or {}).values())) or \
+                any(len(l_) + 12 > w_ for l_ in (uir.get("doc") or "").split("\n"))
+            base["case_multi_line_doc"] = any("\n" in (p_.get("doc") or "") for p_ in list(uir["params"].values()) + list((uir.get("returns") or {}).values()))
             base.update(opts_w)
             base["summary_class"] = ufeat["summary_class"]
             try:
